@@ -163,23 +163,11 @@ func (it *indexedMessageIterator) parseSummarySection() error {
 			if err != nil {
 				return fmt.Errorf("failed to parse chunk index: %w", err)
 			}
-			// if the chunk overlaps with the requested parameters, load it
+			// if the chunk overlaps with the requested parameters, load it. Pruning by topic happens
+			// once the whole summary has been read (see TokenFooter), because channel records may
+			// appear after chunk indexes and may be absent altogether.
 			if (it.end == 0 && it.start == 0) || (idx.MessageStartTime < it.end && idx.MessageEndTime >= it.start) {
-				// Can't infer absence of a topic if there are no message indexes.
-				if len(idx.MessageIndexOffsets) == 0 {
-					it.chunkIndexes = append(it.chunkIndexes, idx)
-					continue
-				}
-				// Otherwise, scan the message index offsets and see if we are
-				// selecting it. ChannelInfo is set only for selected topics.
-				// NB: It would be nice if we had a more compact/direct
-				// representation of what channels are in a chunk.
-				for chanID := range idx.MessageIndexOffsets {
-					if it.channels.Get(chanID) != nil {
-						it.chunkIndexes = append(it.chunkIndexes, idx)
-						break
-					}
-				}
+				it.chunkIndexes = append(it.chunkIndexes, idx)
 			}
 		case TokenStatistics:
 			stats, err := ParseStatistics(record)
@@ -188,6 +176,9 @@ func (it *indexedMessageIterator) parseSummarySection() error {
 			}
 			it.statistics = stats
 		case TokenFooter:
+			if len(it.topics) > 0 {
+				it.chunkIndexes = it.pruneChunkIndexesByTopic(it.chunkIndexes)
+			}
 			// sort chunk indexes in the order that they will need to be loaded, depending on the specified
 			// read order.
 			switch it.order {
@@ -214,6 +205,26 @@ func (it *indexedMessageIterator) parseSummarySection() error {
 			return nil
 		}
 	}
+}
+
+// pruneChunkIndexesByTopic drops the chunk indexes whose message index offsets show that they hold
+// no message on a selected channel. ChannelInfo is set only for selected topics.
+func (it *indexedMessageIterator) pruneChunkIndexesByTopic(chunkIndexes []*ChunkIndex) []*ChunkIndex {
+	kept := chunkIndexes[:0]
+	for _, idx := range chunkIndexes {
+		// Can't infer absence of a topic if there are no message indexes.
+		keep := len(idx.MessageIndexOffsets) == 0
+		for chanID := range idx.MessageIndexOffsets {
+			if it.channels.Get(chanID) != nil {
+				keep = true
+				break
+			}
+		}
+		if keep {
+			kept = append(kept, idx)
+		}
+	}
+	return kept
 }
 
 // loadChunk seeks to and decompresses a chunk into a chunk slot, then populates it.messageIndexes
